@@ -31,6 +31,13 @@ Definition p_rel (i : instr) := match i with IRel => true | _ => false end.
 Definition p_c0 (i : instr) := match i with IClaim 1 | IClaim 2 => false | IClaim _ => true | _ => false end.
 Definition p_c1 (i : instr) := match i with IClaim 1 => true | _ => false end.
 Definition p_c2 (i : instr) := match i with IClaim 2 => true | _ => false end.
+Definition p_claim2 (i : instr) := match i with IClaim2 | IDtorP2 => true | _ => false end.
+Definition p_dtor2 (i : instr) := match i with IDtorP2 => true | _ => false end.
+Definition p_res2 (i : instr) := match i with IResolve2 => true | _ => false end.
+Definition p_walk2 (i : instr) := match i with IWalk2 => true | _ => false end.
+Definition p_dtk2 (i : instr) := match i with ISub2 _ | IWalk2 => true | _ => false end.
+Definition p_park2 (i : instr) := match i with IPark2 => true | _ => false end.
+Definition p_xw2 (i : instr) := match i with IXWait2 => true | _ => false end.
 Definition p_cvA (i : instr) := match i with ICvClaim => true | _ => false end.
 Definition p_cvB (i : instr) := match i with ICvReady => true | _ => false end.
 Definition p_cvC (i : instr) := match i with ICvSet _ => true | _ => false end.
@@ -75,6 +82,8 @@ Definition rn (r : option bool) : nat := match r with None => 0 | Some _ => 1 en
 Definition has_k2 (c : cfg) : bool := match c_k2 c with Some _ => true | None => false end.
 (* the converter forwards the promise to thread 2 *)
 Definition rp (c : cfg) : bool := is_conv c && Nat.eqb (c_cb c) 4.
+(* the handler re-arms the awaiter *)
+Definition re (c : cfg) : nat := match c_re c with Some _ => 1 | None => 0 end.
 Definition isv (o : outcome) : bool := match o with OVal _ => true | _ => false end.
 Definition hb (c : cfg) : nat := b2n (has_helper (c_ad c)).
 Definition cv (c : cfg) : nat := b2n (is_conv c).
@@ -150,30 +159,52 @@ Record Inv (c : cfg) (s : st) : Prop := {
   i_t1 : N p_c1 s + rn (ret1 s) = b2n (prim_calls c);
   i_t2 : N p_c2 s + rn (ret2 s) = b2n (has_k2 c);
   i_pc : prim_calls c = true -> N p_c0 s + N p_dtor s = 0;
-  i_pw : prim_calls c = true -> owner s = true \/ won s = 2 \/ ret1 s = Some true
+  i_pw : prim_calls c = true -> owner s = true \/ won s = 2 \/ ret1 s = Some true;
+  (* the second operation of a re-arming handler: the same token discipline on its own cell; it comes into being
+     when the first completion runs *)
+  j_cfg : re c = 1 -> c_ad c = ACallFn;
+  j_claim : b2n (owner2 s) <= N p_claim2 s;
+  j_res : rdy (slot2 s) + b2n (owner2 s) + N p_res2 s = re c;
+  j_pay : owner2 s = false -> payload2 s = out_of (kind_re c);
+  j_pay0 : owner2 s = true -> payload2 s = ONone;
+  j_dtor : N p_dtor2 s = 0 \/ out_of (kind_re c) = ONone;
+  j_dtk : nfire2 s + sub (slot2 s) + N p_dtk2 s = re c * nfire s;
+  j_walk : N p_walk2 s <= rdy (slot2 s);
+  j_fired : nfire2 s <= rdy (slot2 s);
+  j_park : b2n (parked2 s) + N p_park2 s = re c * nfire s;
+  j_xw0 : cnt p_xw2 (th0 s) = 0;
+  j_xw1 : cnt p_xw2 (th1 s) = 0;
+  j_xw2 : th2 s = [IXWait2; IClaim2] \/ th2 s = [IXWait2; IDtorP2] \/ cnt p_xw2 (th2 s) = 0;
+  j_xwc : N p_xw2 s <= re c
 }.
 
+(* the handler's second run (re-armed call_fn_future_awaiter; that adapter has no helper block) *)
+Definition cb2_log (o : outcome) (t : nat) : list (nat * ev) := [(t, ECb o 0 0); (t, ECbRet 0 0)].
+
 Definition LogInv (c : cfg) (s : st) : Prop :=
-  exists t1 t2 t3,
+  exists t1 t2 t3 t4,
       log s = (if Nat.eqb (nconv s) 1 then conv_log c (payload s) t1 else [])
               ++ (if Nat.eqb (ndeliv s) 1 then [(t2, EODeliv (expected c s))] else [])
-              ++ (if atomic_cb c && Nat.eqb (nfire s) 1 then cb_log c (payload s) t3 else []).
+              ++ (if atomic_cb c && Nat.eqb (nfire s) 1 then cb_log c (payload s) t3 else [])
+              ++ (if Nat.eqb (nfire2 s) 1 then cb2_log (payload2 s) t4 else []).
 
 (* ---------- the invariant holds initially and is preserved by every step ---------- *)
 Lemma inv_init c : valid c = true -> Inv c (init c).
 Proof.
-  destruct c as [ad mode stor k k2 cb cd]. unfold valid, init, rp, is_mts, is_mk, is_conv, is_mode, reg_prog, mk_prog, res_prog, is_mts.
-  cbn [c_mode c_stor c_ad c_k2 c_cb c_k].
+  destruct c as [ad mode stor k k2 rek cb cd]. unfold valid, init, rp, re, kind_re, is_mk, is_conv, is_mode, reg_prog, mk_prog, res_prog.
+  cbn [c_mode c_stor c_ad c_k2 c_cb c_k c_re].
   intros V.
   destruct mode as [|[|[|[|m]]]]; try (cbn in V; rewrite ?andb_false_r in V; discriminate);
   destruct ad; try (cbn in V; rewrite ?andb_false_r in V; discriminate);
   destruct k2 as [kk|]; try (cbn in V; rewrite ?andb_false_r in V; discriminate);
-  destruct (Nat.eqb stor 4) eqn:ST; destruct (Nat.eqb cb 4) eqn:CB4;
+  destruct rek as [[rv|rx|]|]; try (cbn in V; rewrite ?CB4, ?andb_false_r in V; cbn in V; rewrite ?andb_false_r in V; discriminate);
+  destruct (Nat.eqb cb 4) eqn:CB4;
   try (cbn in V; rewrite ?CB4, ?andb_false_r in V; cbn in V; rewrite ?andb_false_r in V; discriminate);
-  destruct k; constructor; cbn; rewrite ?CB4, ?ST; cbn; try reflexivity; try lia; try congruence; try discriminate; try exact I;
+  destruct k; constructor; cbn; rewrite ?CB4; cbn; try reflexivity; try lia; try congruence; try discriminate; try exact I;
   try (left; reflexivity); try (right; reflexivity); try (split; discriminate); try (intros; discriminate);
   try (split; [lia|intros; try reflexivity; lia]);
-  try (intros; reflexivity); try (intros; right; reflexivity); try (intros; lia); try (intros; congruence).
+  try (intros; reflexivity); try (intros; right; reflexivity); try (intros; lia); try (intros; congruence);
+  try (right; left; reflexivity); try (right; right; reflexivity).
 Qed.
 
 (* ---------- tactics shared by the step lemmas (one file per thread, so that they build in parallel) ---------- *)
@@ -187,6 +218,9 @@ Ltac dflags s :=
   | |- context[if pheld s then _ else _] => let E := fresh "FPH" in destruct (pheld s) eqn:E
   | |- context[match oheld s with _ => _ end] => let E := fresh "FOH" in destruct (oheld s) eqn:E
   | |- context[match c_ad ?c with _ => _ end] => let E := fresh "AD" in destruct (c_ad c) eqn:E
+  | |- context[if owner2 s then _ else _] => let E := fresh "FO2" in destruct (owner2 s) eqn:E
+  | |- context[match slot2 s with _ => _ end] => let E := fresh "FS2" in destruct (slot2 s) eqn:E
+  | |- context[match c_re ?c with _ => _ end] => let E := fresh "RE" in destruct (c_re c) eqn:E
   | |- context[match c_cb ?c with _ => _ end] => let E := fresh "CB" in destruct (c_cb c) as [|[|[|[|[|?]]]]] eqn:E
   | |- context[if Nat.eqb (c_stor ?c) 4 then _ else _] => let E := fresh "MT" in destruct (Nat.eqb (c_stor c) 4) eqn:E
   end.
@@ -234,18 +268,19 @@ Ltac fin :=
   | |- _ => first [assumption | finx]
   end.
 
-Ltac red1 := cbn [fst snd thr set_thr push tick set_src set_out set_held set_cnt add_log set_ret pheld oheld owner parked slot payload oprom oslot opayload allocs frees th0 th1 th2 clk ret1 ret2 won nfire nconv ndeliv nores log app].
-Ltac redc := cbn [cnt p_claim p_dtor p_res p_walk p_dtk p_park p_xw p_rel p_c0 p_c1 p_c2 isv rn on p_cvA p_cvB p_cvC p_cvP p_cvD p_ow p_oc p_cvR p_cvW p_otk p_bad negb orb andb
+Ltac red1 := cbn [fst snd thr set_thr push tick set_src set_src2 owner2 parked2 slot2 payload2 nfire2 set_out set_held set_cnt add_log set_ret pheld oheld owner parked slot payload oprom oslot opayload allocs frees th0 th1 th2 clk ret1 ret2 won nfire nconv ndeliv nores log app].
+Ltac redc := cbn [cnt p_claim p_dtor p_res p_walk p_dtk p_park p_xw p_rel p_c0 p_c1 p_c2 isv rn on p_claim2 p_dtor2 p_res2 p_walk2 p_dtk2 p_park2 p_xw2 p_cvA p_cvB p_cvC p_cvP p_cvD p_ow p_oc p_cvR p_cvW p_otk p_bad negb orb andb
                   b2n rdy sub Nat.add has_helper has_functor has_cb is_conv].
-Ltac redch := cbn [cnt p_claim p_dtor p_res p_walk p_dtk p_park p_xw p_rel p_c0 p_c1 p_c2 isv rn on p_cvA p_cvB p_cvC p_cvP p_cvD p_ow p_oc p_cvR p_cvW p_otk p_bad negb orb andb
+Ltac redch := cbn [cnt p_claim p_dtor p_res p_walk p_dtk p_park p_xw p_rel p_c0 p_c1 p_c2 isv rn on p_claim2 p_dtor2 p_res2 p_walk2 p_dtk2 p_park2 p_xw2 p_cvA p_cvB p_cvC p_cvP p_cvD p_ow p_oc p_cvR p_cvW p_otk p_bad negb orb andb
                   b2n rdy sub Nat.add] in *|-.
 
 
 (* the instruction set in three groups: the step lemma is proved per thread and per group (nine files that build in parallel) *)
 Definition gA (i : instr) : bool :=
-  match i with IPriv _ | IPark _ | IRel | IXWait | IClaim _ | IDtorP | IResolve | IWalk => true | _ => false end.
+  match i with IPriv _ | IPark _ | IRel | IXWait | IClaim _ | IDtorP | IResolve | IWalk
+             | IPark2 | IXWait2 | IClaim2 | IDtorP2 | IResolve2 => true | _ => false end.
 Definition gB (i : instr) : bool :=
-  match i with IReady | ISub _ | ICvClaim | ICvDtor | IOWait | IOClaim => true | _ => false end.
+  match i with IReady | ISub _ | ICvClaim | ICvDtor | IOWait | IOClaim | ISub2 _ | IWalk2 => true | _ => false end.
 Definition gC (i : instr) : bool :=
   match i with ICvReady | ICvSet _ | ICvPark _ | ICvResolve | ICvWalk | IOReady | IOSub _ => true | _ => false end.
 Lemma groups_cover i : gA i = true \/ gB i = true \/ gC i = true.
